@@ -124,23 +124,30 @@ Definition sc0 : sc := {| pend := []; plen := 0; start := 0; cap := 0 |}.
 
 (* one underlying Read into buf[end:len(buf)] (space bytes), repeated while it returns (0, nil).
    Returns the bytes read, the remaining segments and the new s.err (None = nil, Some 0 = EOF). *)
-Fixpoint read_more (space : N) (loop : N) (segs : list bytes) (fin : N)
+Fixpoint read_more (space : N) (loop : N) (segs : list bytes) (fin : N) (dt : bool)
   : bytes * list bytes * option N :=
   match segs with
   | [] => ([], [], Some fin)
   | seg :: rest =>
       match seg with
       | [] => if max_empty_reads <? loop + 1 then ([], rest, Some E_NOPROGRESS)
-              else read_more space (loop + 1) rest fin
+              else read_more space (loop + 1) rest fin dt
       | _ :: _ =>
           if space =? 0 then
             (* Read(p) with len(p) = 0 returns (0, nil): counted like an empty read; unreachable
                because the buffer is never full when the read loop is entered *)
             ([], segs, Some E_NOPROGRESS)
-          else match takeN space seg with
-               | Some (a, r) => (a, match r with [] => rest | _ => r :: rest end, None)
-               | None => (seg, rest, None)
-               end
+          else
+            (* dt: the underlying reader returns its last bytes together with the final error
+               (n > 0, err) instead of (n, nil) followed by (0, err) *)
+            let last (a : bytes) := match rest with
+                                    | [] => if dt then (a, [], Some fin) else (a, [], None)
+                                    | _ => (a, rest, None)
+                                    end in
+            match takeN space seg with
+            | Some (a, r) => match r with [] => last a | _ => (a, r :: rest, None) end
+            | None => last seg
+            end
       end
   end.
 
@@ -154,7 +161,7 @@ Definition push (tok : bytes) (out : list bytes) : list bytes :=
 (* commentReader.Read called until it fails, over Scanner.Scan: [out] is the reversed list of the
    non-empty tokens written to the output so far; the result carries the output and how the
    stream ended (Ok tt = io.EOF). *)
-Fixpoint drain (fuel : nat) (st : sc) (segs : list bytes) (fin : N) (serr : option N)
+Fixpoint drain (fuel : nat) (st : sc) (segs : list bytes) (fin : N) (dt : bool) (serr : option N)
   (out : list bytes) : list bytes * res unit :=
   match fuel with
   | O => (out, Err E_FUEL)
@@ -175,9 +182,9 @@ Fixpoint drain (fuel : nat) (st : sc) (segs : list bytes) (fin : N) (serr : opti
                s.Err(): after a read error (not EOF) it returns that error at once and the
                buffered token is never delivered *)
             match serr, tok with
-            | Some e, _ :: _ => if e =? 0 then drain fuel' st' segs fin serr (push tok out)
+            | Some e, _ :: _ => if e =? 0 then drain fuel' st' segs fin dt serr (push tok out)
                                 else (out, Err e)
-            | _, _ => drain fuel' st' segs fin serr (push tok out)
+            | _, _ => drain fuel' st' segs fin dt serr (push tok out)
             end
       | Ok More =>
           match serr with
@@ -196,10 +203,10 @@ Fixpoint drain (fuel : nat) (st : sc) (segs : list bytes) (fin : N) (serr : opti
                                 {| pend := pend st1; plen := plen st1; start := 0; cap := N.min ns max_token |}
                            else st1 in
                 let space := cap st2 - (start st2 + plen st2) in
-                let '(got, segs', serr') := read_more space 0 segs fin in
+                let '(got, segs', serr') := read_more space 0 segs fin dt in
                 let st3 := {| pend := pend st2 ++ got; plen := plen st2 + lenN got;
                               start := start st2; cap := cap st2 |} in
-                drain fuel' st3 segs' fin serr' out
+                drain fuel' st3 segs' fin dt serr' out
           end
       end
   end.
@@ -209,8 +216,9 @@ Definition flat (out : list bytes) : bytes := concat (rev out).
 Definition drain_fuel (segs : list bytes) : nat :=
   S (S (S (2 * length (concat segs)))).
 
-Definition reader (segs : list bytes) (fin : N) : bytes * res unit :=
-  let '(out, r) := drain (drain_fuel segs) sc0 segs fin None [] in (flat out, r).
+Definition reader_dt (segs : list bytes) (fin : N) (dt : bool) : bytes * res unit :=
+  let '(out, r) := drain (drain_fuel segs) sc0 segs fin dt None [] in (flat out, r).
+Definition reader (segs : list bytes) (fin : N) : bytes * res unit := reader_dt segs fin false.
 
 (* ---- the segmentation-free specification: split applied to the whole remaining input ---- *)
 Fixpoint strip_go (fuel : nat) (d : bytes) (out : list bytes) : list bytes * res unit :=
@@ -277,10 +285,11 @@ Definition doc_ok (d : list item) (tail : option bytes) : bool :=
   forallb item_ok d && match tail with Some b => line_ok b | None => true end.
 
 (* ---- harness interface ----
-   case (0 (xseg ...) fin rd)                     raw input, explicit read segments
-   case (1 (item ...) tail (len ...) fin rd)      document; item = (0 xrun)|(1 xstr)|(2 xline)|(3 xblock),
+   case (0 (xseg ...) fin rd dt)                  raw input, explicit read segments
+   case (1 (item ...) tail (len ...) fin rd dt)   document; item = (0 xrun)|(1 xstr)|(2 xline)|(3 xblock),
                                                   tail = () | (xbody); the rendering is cut into
                                                   segments of the given lengths (rest = last segment)
+   dt <> 0: the last bytes are returned together with the final error.
    rd (the consumer's read size) is not modelled: the output is what the consumer has received.
    observation (0 xout) | (1 code xout) | (2); kind 1 appends the guard bit doc_ok *)
 Definition obs_of (r : bytes * res unit) (extra : list sx) : sx :=
@@ -322,16 +331,16 @@ Fixpoint cut (lens : list sx) (d : bytes) : list bytes :=
 
 Definition run_c17 (c : sx) : sx :=
   match c with
-  | SL [SZ 0; SL segs; SZ fin; SZ _] =>
+  | SL [SZ 0; SL segs; SZ fin; SZ _; SZ dt] =>
       match sx_segs segs with
-      | Some s => if wf_bytesb (concat s) then obs_of (reader s (Z.to_N fin)) [] else bad_case
+      | Some s => if wf_bytesb (concat s) then obs_of (reader_dt s (Z.to_N fin) (negb (dt =? 0)%Z)) [] else bad_case
       | None => bad_case
       end
-  | SL [SZ 1; SL items; SL tl; SL lens; SZ fin; SZ _] =>
+  | SL [SZ 1; SL items; SL tl; SL lens; SZ fin; SZ _; SZ dt] =>
       match sx_items items, (match tl with [] => Some None | [SB b] => Some (Some b) | _ => None end) with
       | Some d, Some tail =>
           let text := render_dec d tail in
-          if wf_bytesb text then obs_of (reader (cut lens text) (Z.to_N fin)) [sbool (doc_ok d tail)]
+          if wf_bytesb text then obs_of (reader_dt (cut lens text) (Z.to_N fin) (negb (dt =? 0)%Z)) [sbool (doc_ok d tail)]
           else bad_case
       | _, _ => bad_case
       end
